@@ -14,3 +14,11 @@ import AITB.Props.C03Examples
 import AITB.Props.C03Bridge
 import AITB.Props.C03CheckSound
 import AITB.Props.C03Gap
+import AITB.Props.C03Trace
+import AITB.Props.C03AsFound
+import AITB.Props.C03Sarsop
+import AITB.Props.C03Prom
+import AITB.Props.C03GapMin
+import AITB.Props.C03GapMinLb
+import AITB.Props.C03Prom2
+import AITB.Props.C03GapMinUb
